@@ -105,6 +105,14 @@ Lemma existsb_upd_new : forall A (f : A -> bool) l i p q,
   nth_error l i = Some p -> f q = true -> existsb f (upd i q l) = true.
 Proof. intros. apply existsb_nth with (i := i) (p := q); [eapply nth_error_upd_same; exact H | exact H0]. Qed.
 
+Lemma existsb_upd_in : forall A (f : A -> bool) l i q,
+  (i < length l)%nat -> f q = true -> existsb f (upd i q l) = true.
+Proof.
+  intros A f l i q Hi Hq. destruct (nth_error l i) eqn:E.
+  - eapply existsb_upd_new; eauto.
+  - apply nth_error_None in E. lia.
+Qed.
+
 (* ---- forallb_i --------------------------------------------------------------------- *)
 Lemma forallb_i_spec : forall A (f : nat -> A -> bool) l k,
   forallb_i f k l = true <-> (forall i p, nth_error l i = Some p -> f (k + i)%nat p = true).
